@@ -13,6 +13,7 @@ Does NOT decide select! fairness; both-ready schedules rely on C14."""
 from ..sym import show, walk_expr, canon
 from ..common import short
 from .. import pathq
+from . import names
 from .c07 import msg_mutations
 
 EXPLANATION = __doc__
@@ -165,7 +166,7 @@ def run(ctx, f, rep):
     c04.check_registration(f, sub)
     n = 0
     for o in sub.obls:
-        if "GenericSocketBackend" in o.key and o.rule == "R04.4":
+        if names.of(f, "GenericSocketBackend") in o.key and o.rule == "R04.4":
             n += 1
             (rep.ok if o.ok else rep.bad)("R15.4", o.key.replace("R04.4", "R15.4", 1), o.what, o.loc, o.detail)
     rep.floor("R15.4", "registration obligations of the ROUTER/DEALER backend", n, 3)
